@@ -126,7 +126,16 @@ class E2Hooks:
                 iv = a0.iv if a0.iv is not None else bounds
                 return AV(iv=clip(iv, PRIM.get(dest_ty, rr)))
             if name == "contains":
-                return AV(iv=(0, 1))
+                # a range test of a primitive against the type's own bounds: the true edge refines the argument
+                res = (0, 1)
+                if a0.iv is not None:
+                    if bounds[0] <= a0.iv[0] and a0.iv[1] <= bounds[1]:
+                        res = (1, 1)
+                    elif a0.iv[1] < bounds[0] or a0.iv[0] > bounds[1]:
+                        res = (0, 0)
+                if t.get("args") and t["args"][0].get("o") != "c":
+                    return AV(iv=res, cmp=("inrange", _opkey(t["args"][0]), bounds[0], bounds[1]))
+                return AV(iv=res)
             if name == "without_bounds":
                 return AV(iv=a0.iv if a0.iv is not None else bounds, mod=None)
             if name == "abs":
